@@ -285,7 +285,9 @@ for v in ck.violations:
         v['replayed'] = rep.get('equal') is False
         v['native'] = rep
     elif v['obligation'].startswith(('G4', 'G5')):
-        v['replayed'] = None
+        rep = Replay.call({'op': 'gossip_local_op', 'gop': w['op'], 'pre': w['pre']})
+        v['native'] = rep
+        v['replayed'] = rep.get('regress') if v['obligation'].startswith('G4') else rep.get('incarnation_changed')
 
 ck.functions += ['GossipNodeState::supersedes', 'LWWMembershipState::merge', 'LWWMembershipState::sync_time', 'LWWMembershipState::tick',
                  'LWWMembershipState::suspect', 'LWWMembershipState::fail', 'LWWMembershipState::refute', 'LWWMembershipState::mark_healthy']
